@@ -217,17 +217,16 @@ Qed.
 
 (** * C16: one lock section per call *)
 
-(** every trait call but open_file is a single lock section (or takes no lock at all) *)
+(** every trait call is a single lock section (or takes no lock at all) *)
 Theorem single_section (c : fscall) (s : mstate) :
-  (forall p, c <> COpenFile p) ->
   (exists sec : msec, exists cast : msec_rep sec -> res (mval c),
       mem_step c s = (fst (msec_sem sec s), cast (snd (msec_sem sec s)))) \/
   fst (mem_step c s) = s.
 Proof.
-  intros Hc. destruct c.
+  destruct c.
   - left. exists (MScan p), (fun x => x). rewrite ms_read_dir. now destruct (msec_sem _ _).
   - left. exists (MInsertDir p), (fun x => x). rewrite ms_create_dir. now destruct (msec_sem _ _).
-  - exfalso. eapply Hc. reflexivity.
+  - left. exists (MGetReader p), (fun x => x). rewrite ms_open_file. now destruct (msec_sem _ _).
   - left. exists (MInsertFile p), (fun x => x). rewrite ms_create_file. now destruct (msec_sem _ _).
   - left. exists (MAppendOpen p), (fun x => x). rewrite ms_append_file. now destruct (msec_sem _ _).
   - left. exists (MMeta p), (fun x => x). rewrite ms_metadata. now destruct (msec_sem _ _).
@@ -245,8 +244,6 @@ Qed.
 (** threads of atomic calls: an interleaved execution IS the sequential execution of the calls in
     the order in which the scheduler let them take the lock, and that order respects every
     thread's program order *)
-Definition acall := { c : fscall | forall p, c <> COpenFile p }.
-
 Fixpoint arun (sch : list nat) (s : mstate) (pool : list (list fscall)) (done : list (nat * fscall))
   : mstate * list (list fscall) * list (nat * fscall) :=
   match sch with
